@@ -8546,3 +8546,143 @@ func ruleTrimmedTxFields(c *Ctx) {
 	c.Floor("reads of trimmed blocks from the store", nsrc, 3)
 	c.Floor("loops over the transactions of a trimmed block", nloop, 2)
 }
+
+// ruleTipSnapshot (C19): dBFT builds the context of a new height from two questions to the application - the hash of
+// the current block (PrevHash) and the current height (BlockIndex = height+1) - asked one after the other, while the
+// block queue adds blocks from another goroutine. Answered by two independent reads of the ledger, a block stored
+// between them gives PrevHash = hash(N) with BlockIndex = N+2; the notification about N+1 is then ignored (its index
+// is below dBFT's), and until the next block this validator rejects every honest proposal and signs headers nobody
+// else has - with f validators silent the chain stops (finding 95). The two callbacks answer from one pair: the
+// function given to dbft.WithCurrentHeight returns a field of the service that is assigned in the same statement as
+// the field the function given to dbft.WithCurrentBlockHash returns, and does not ask the ledger for a height itself.
+func ruleTipSnapshot(c *Ctx) {
+	pk := c.P.Pkg("pkg/consensus")
+	if pk == nil {
+		c.Lost("tip-snapshot.pkg", "package consensus not loaded")
+		return
+	}
+	info := pk.TypesInfo
+	args := map[string]ast.Expr{}
+	for _, f := range pk.Syntax {
+		ast.Inspect(f, func(x ast.Node) bool {
+			call, ok := x.(*ast.CallExpr)
+			if !ok || len(call.Args) != 1 {
+				return true
+			}
+			// the options are generic functions instantiated at the call: dbft.WithCurrentHeight[util.Uint256](f)
+			fun := ast.Unparen(call.Fun)
+			switch ix := fun.(type) {
+			case *ast.IndexExpr:
+				fun = ix.X
+			case *ast.IndexListExpr:
+				fun = ix.X
+			}
+			se, ok := ast.Unparen(fun).(*ast.SelectorExpr)
+			if !ok {
+				return true
+			}
+			fn, ok := info.ObjectOf(se.Sel).(*types.Func)
+			if !ok || fn.Pkg() == nil || !strings.HasSuffix(fn.Pkg().Path(), "nspcc-dev/dbft") {
+				return true
+			}
+			if fn.Name() == "WithCurrentHeight" || fn.Name() == "WithCurrentBlockHash" {
+				args[fn.Name()] = call.Args[0]
+			}
+			return true
+		})
+	}
+	if args["WithCurrentHeight"] == nil || args["WithCurrentBlockHash"] == nil {
+		c.Lost("tip-snapshot.callbacks", "the service no longer gives dBFT its CurrentHeight / CurrentBlockHash callbacks through dbft.WithCurrentHeight / WithCurrentBlockHash")
+		return
+	}
+	// resolve a callback to the declaration of a function of the package (nil: something else, e.g. a method value
+	// of the Ledger interface)
+	resolve := func(e ast.Expr) (*FuncDecl, string) {
+		switch x := ast.Unparen(e).(type) {
+		case *ast.SelectorExpr:
+			if fn, ok := info.ObjectOf(x.Sel).(*types.Func); ok {
+				if fd := c.P.DeclOf(fn); fd != nil && fd.Pkg == pk {
+					return fd, FuncKey(fn)
+				}
+				return nil, FuncKey(fn)
+			}
+		case *ast.Ident:
+			if fn, ok := info.ObjectOf(x).(*types.Func); ok {
+				if fd := c.P.DeclOf(fn); fd != nil && fd.Pkg == pk {
+					return fd, FuncKey(fn)
+				}
+				return nil, FuncKey(fn)
+			}
+		}
+		return nil, types.ExprString(e)
+	}
+	hd, hname := resolve(args["WithCurrentHeight"])
+	bd, bname := resolve(args["WithCurrentBlockHash"])
+	pos := c.P.Pos(args["WithCurrentHeight"].Pos())
+	if hd == nil || bd == nil {
+		c.Fail("tip-snapshot", pos, fmt.Sprintf("dBFT's CurrentHeight and CurrentBlockHash callbacks are %s and %s - two independent reads of a ledger that another goroutine writes: a block stored between them gives the context PrevHash = hash(N) and BlockIndex = N+2, the notification about block N+1 is then below dBFT's index and ignored, and until the next block this validator rejects every honest proposal (invalid PrevHash) and signs headers nobody else has", shortSym(hname), shortSym(bname)))
+		return
+	}
+	retField := func(fd *FuncDecl) *types.Var {
+		var out *types.Var
+		for _, st := range fd.Decl.Body.List {
+			rs, ok := st.(*ast.ReturnStmt)
+			if !ok || len(rs.Results) != 1 {
+				continue
+			}
+			if se, ok := ast.Unparen(rs.Results[0]).(*ast.SelectorExpr); ok {
+				if v, ok := info.ObjectOf(se.Sel).(*types.Var); ok && v.IsField() {
+					out = v
+				}
+			}
+		}
+		return out
+	}
+	hf, bf := retField(hd), retField(bd)
+	// a direct question to the ledger for a height in the height callback itself
+	asksLedger := ""
+	inspectNoLit(hd.Decl.Body, func(x ast.Node) bool {
+		if call, ok := x.(*ast.CallExpr); ok {
+			if fn := calleeFunc(info, call); fn != nil && (fn.Name() == "BlockHeight" || fn.Name() == "HeaderHeight") {
+				asksLedger = fn.Name()
+			}
+		}
+		return true
+	})
+	together := false
+	if hf != nil && bf != nil {
+		for _, f := range pk.Syntax {
+			ast.Inspect(f, func(x ast.Node) bool {
+				as, ok := x.(*ast.AssignStmt)
+				if !ok {
+					return true
+				}
+				seenH, seenB := false, false
+				for _, l := range as.Lhs {
+					if se, ok := ast.Unparen(l).(*ast.SelectorExpr); ok {
+						switch info.ObjectOf(se.Sel) {
+						case types.Object(hf):
+							seenH = true
+						case types.Object(bf):
+							seenB = true
+						}
+					}
+				}
+				if seenH && seenB {
+					together = true
+				}
+				return true
+			})
+		}
+	}
+	switch {
+	case asksLedger != "":
+		c.Fail("tip-snapshot", pos, fmt.Sprintf("%s, dBFT's CurrentHeight callback, asks the ledger (%s) itself: the hash dBFT took a moment earlier and this height are two reads of a ledger that another goroutine writes; a block stored between them gives a context with PrevHash = hash(N) and BlockIndex = N+2", shortSym(hname), asksLedger))
+	case hf == nil || bf == nil:
+		c.Unclassified("tip-snapshot", pos, "the callbacks do not return fields of the service; the rule cannot tell whether the two answers come from one look at the ledger")
+	case !together:
+		c.Fail("tip-snapshot", pos, fmt.Sprintf("the fields dBFT's callbacks return (%s, %s) are never assigned in one statement: the hash and the height of the tip are taken apart", bf.Name(), hf.Name()))
+	default:
+		c.OK("tip-snapshot", pos, fmt.Sprintf("dBFT's CurrentBlockHash and CurrentHeight answer from one pair (%s, %s) assigned together", bf.Name(), hf.Name()))
+	}
+}
